@@ -144,4 +144,21 @@ def generate(rng, tier, focus):
         p = scen.rand_chain(rng, ["conn", 0], rng.choice([1, 1, 2]), names=["take", "first", "map", "take_while", "skip", "element_at", "contains", "all"])
         reacts = [(rng.randrange(3), ["unsub-self"])] if rng.random() < 0.25 else []
         cases.append((scn(srcs=[src([s0], rng.random() < 0.3)], conns=[[kind, ["cold", 0]]], handles=1, script_=[sub(0, p, *reacts)]), {"k": "cold-early-leave"}))
+    # a subscriber that is already gone when the shared stream's turn comes: a multi-input operator whose earlier, synchronous input
+    # ends the subscription (take(1) over merge(just, shared), amb(just, shared), take_until(shared, just), concat(error, shared)):
+    # the shared source must not be connected for nobody - and a later, real subscriber must still get a working connection
+    for _ in range(1800 if thorough else 300):
+        kind = rng.choice(["refcount", "replay"])
+        hub = ["conn", 0]
+        dead = rng.choice([op("take", [1], op("merge", [], ["just", 7], hub)), op("amb", [], ["just", 7], hub), op("take_until", [], hub, ["just", 7]),
+                           op("first", [], op("merge", [], ["from_iter", 7, 8], hub)), op("concat", [], ["error", 6], hub)])
+        acts = [sub(0, dead)]
+        acts += [["emit", 0, n(rng.choice([1, 2, 3]))] for _ in range(rng.randrange(0, 3))]
+        if rng.random() < 0.7:
+            acts.append(sub(1, hub))
+            acts += [["emit", 0, n(rng.choice([1, 2, 3]))] for _ in range(rng.randrange(1, 3))]
+            if rng.random() < 0.6:
+                acts.append(["unsub", 1])
+                acts += [["emit", 0, n(rng.choice([1, 2, 3]))]]
+        cases.append((scn(subjects=[["subject"]], conns=[[kind, ["hot", 0]]], handles=3, script_=acts), {"k": "dead-on-arrival"}))
     return cases
